@@ -55,6 +55,7 @@ class _RoutingFlowControl:
     __slots__ = (
         "_last_busy_frame_time",
         "_last_sent_routing_indication_time",
+        "_lock",
         "_loop",
         "_ready",
         "_received_busy_frames",
@@ -66,6 +67,7 @@ class _RoutingFlowControl:
     def __init__(self) -> None:
         self._last_busy_frame_time: float = 0.0
         self._last_sent_routing_indication_time: float = 0.0
+        self._lock = asyncio.Lock()
         self._loop = asyncio.get_running_loop()
         self._ready = asyncio.Event()
         self._ready.set()
@@ -85,13 +87,15 @@ class _RoutingFlowControl:
         # limit RoutingIndication transmission rate according to
         # KNX v01.01.02 - Communication Medium KNX IP 03.02.06 - §2.1
         # simplified version - pause 20 ms after transmit a RoutingIndication
-        elapsed = self._loop.time() - self._last_sent_routing_indication_time
-        if elapsed < ROUTING_INDICATION_WAIT_TIME:
-            await asyncio.sleep(ROUTING_INDICATION_WAIT_TIME - elapsed)
+        # concurrent senders (eg. telegram queue and management T_ACKs) take turns
+        async with self._lock:
+            elapsed = self._loop.time() - self._last_sent_routing_indication_time
+            if elapsed < ROUTING_INDICATION_WAIT_TIME:
+                await asyncio.sleep(ROUTING_INDICATION_WAIT_TIME - elapsed)
 
-        await self._ready.wait()
-        yield
-        self._last_sent_routing_indication_time = self._loop.time()
+            await self._ready.wait()
+            yield
+            self._last_sent_routing_indication_time = self._loop.time()
 
     def handle_routing_busy(self, routing_busy: RoutingBusy) -> None:
         """Handle incoming RoutingBusy."""
